@@ -66,6 +66,17 @@ CLAIMED = {
          "consistent re-encoding and an empty ledger; sanitizer reports, aborts and watchdog timeouts are Crash/Timeout events. Memory safety is "
          "observed on the explored inputs, not proved.",
          "TLC-generated structure-aware mutations + sanitizer build + TLA+ trace validation of the decode contract"),
+ "C16": ("model_checking", "7 C16",
+         "Helpers.tla states the conversion helpers as relations (contents = minimal two's complement; back conversion ok iff the value fits the C "
+         "type, ERANGE otherwise; REAL contents = X.690 8.5/11.3 canonical form and bit-exact round trip; numerals accepted iff in range). TLC "
+         "enumerates the boundary-exhaustive argument sets of MC_Helpers.tla, the helper driver performs each call on the library (ASan build) and "
+         "TLC validates every recorded call against the relation.",
+         "TLA+ helper relations + TLC-enumerated boundary arguments + trace validation"),
+ "C17": ("model_checking", "7 C17",
+         "Helpers.tla: OBJECT IDENTIFIER contents per X.690 8.19 on arbitrary-precision arcs, dotted text, the get_arcs slot protocol; proleptic "
+         "Gregorian civil-from-days and the canonical forced-GMT GeneralizedTime/UTCTime text. TLC enumerates arc vectors and (day, second, "
+         "fraction, TZ) tuples at the calendar edges; the driver runs each call under the given POSIX TZ; TLC validates text and round trip.",
+         "TLA+ OID/time relations + TLC-enumerated edges x time zones + trace validation"),
 }
 
 checks = []
